@@ -131,3 +131,78 @@ func (m *Machine) concBytes(v value, what string) []byte {
 	}
 	return out
 }
+
+func init() {
+	// github.com/jinzhu/copier.Copy(to, from): reflection-driven in reality; modelled as a deep
+	// copy of the source value into the destination cell (the only use, config.Commit, copies a
+	// Global struct that has no pointer fields).
+	externals["github.com/jinzhu/copier.Copy"] = func(m *Machine, fr *frame, a []value) value {
+		to, from := a[0].(iface), a[1].(iface)
+		dst, ok1 := to.v.(*value)
+		src, ok2 := from.v.(*value)
+		if !ok1 || !ok2 || dst == nil || src == nil {
+			panic(unsupported{"copier.Copy with non-pointer operands"})
+		}
+		store(dst, deepCopyVal(*src, map[*value]*value{}))
+		return iface{}
+	}
+}
+
+func deepCopyVal(v value, memo map[*value]*value) value {
+	switch x := v.(type) {
+	case structure:
+		out := make(structure, len(x))
+		for i := range x {
+			out[i] = deepCopyVal(x[i], memo)
+		}
+		return out
+	case array:
+		out := make(array, len(x))
+		for i := range x {
+			out[i] = deepCopyVal(x[i], memo)
+		}
+		return out
+	case []value:
+		if x == nil {
+			return []value(nil)
+		}
+		out := make([]value, len(x))
+		for i := range x {
+			out[i] = deepCopyVal(x[i], memo)
+		}
+		return out
+	case *value:
+		if x == nil {
+			return x
+		}
+		if p, ok := memo[x]; ok {
+			return p
+		}
+		p := new(value)
+		memo[x] = p
+		*p = deepCopyVal(*x, memo)
+		return p
+	case *mapv:
+		if x == nil {
+			return x
+		}
+		out := newMap(x.keyT)
+		for _, e := range x.entries {
+			if e.deleted {
+				continue
+			}
+			ne := &mentry{key: e.key, val: deepCopyVal(e.val, memo), symKey: e.symKey}
+			out.entries = append(out.entries, ne)
+			if kr, conc := keyRepr(e.key); conc {
+				out.idx[kr] = ne
+			} else {
+				out.nsym++
+			}
+			out.n++
+		}
+		return out
+	case iface:
+		return iface{t: x.t, v: deepCopyVal(x.v, memo)}
+	}
+	return v
+}
